@@ -146,6 +146,10 @@ class Case:
             a["mac"] = "bad"
         if b == "errorStatus":
             body = ksi.tlv(0x01, ksi.uint(rid)) + ksi.tlv(0x04, ksi.uint(0x101)) + ksi.tlv(0x05, b"no such round\0")
+            if self.rng.random() < 0.5:
+                # the error reply also carries what an honest reply would: a failed extension is a failed extension whatever else the PDU contains
+                X0 = X; hl = list(self.honest_chain(X0))
+                body += ksi.tlv(0x12, ksi.uint(self.HEAD + 50)) + ksi.cal_chain_tlv(X0, aggr, self.agg_root, hl)
             return wire.envelope(0x0321, (0x0300, 0x0302), [(0x02, body)], a)
         pub = X + 1 if b == "otherPubTime" else X
         links = list(self.honest_chain(pub))
